@@ -30,6 +30,7 @@ var workKinds = []string{
 var points = []string{
 	"modules.work.decremented", "modules.stopcheck.complete",
 	"modules.stop.ctrlflag", "modules.stop.stopflag", "modules.stop.cancelled", "modules.stop.waiting",
+	"modules.ctrlfn.returned", "modules.ctrlfn.returned",
 }
 
 func genScenario(t *rapid.T) *modsim.Scenario {
@@ -155,6 +156,25 @@ func TestPropStopWaitsForWork(t *testing.T) {
 			stats.Sample("scenario", map[string]any{"scenario": sc, "events": modsim.RenderEvents(res.Events, 60)})
 		}
 	})
+}
+
+// fixed finding: the goroutine of a finished start routine reset the "control function running" flag only after
+// handing over its result; when the module was stopped right away, the late reset hit the flag of the stop routine
+// and the module was reported stopped (and its dependencies began stopping) while its stop routine was still running.
+func TestRegLateCtrlFlagResetEndsStopEarly(t *testing.T) {
+	for _, js := range []string{
+		`{"modules":[{"name":"m0","prep":{"dur_us":0},"start":{"dur_us":0},"stop":{"dur_us":0}},{"name":"m1","deps":["m0"],"prep":{"dur_us":0},"start":{"dur_us":0},"stop":{"dur_us":20000}}],"mgmt":false,"steps":[{"op":"start"},{"op":"shutdown"}],"start_timeout_ms":20000,"stop_timeout_ms":8000,"delays":[{"point":"modules.ctrlfn.returned","ctx":"m1","nth":2,"delay_us":5000}]}`,
+		`{"modules":[{"name":"m0","prep":{"dur_us":0},"start":{"dur_us":0},"stop":{"dur_us":8000,"fault":"error"}}],"mgmt":false,"steps":[{"op":"start"},{"op":"shutdown"}],"start_timeout_ms":20000,"stop_timeout_ms":8000,"delays":[{"point":"modules.ctrlfn.returned","ctx":"m0","nth":2,"delay_us":3000}]}`,
+	} {
+		sc := &modsim.Scenario{}
+		if err := json.Unmarshal([]byte(js), sc); err != nil {
+			t.Fatal(err)
+		}
+		res := runAndJudge(t, sc)
+		if v := modsim.CheckC01(sc, res); v != nil {
+			t.Fatalf("%s\nevents:%s", v.Error(), modsim.RenderEvents(res.Events, 60))
+		}
+	}
 }
 
 // TestRegReplayCase re-executes a journalled scenario (./check C05 --replay <file.case>).
